@@ -205,7 +205,38 @@ def _snapshot(obj):
     return repr(obj)
 
 
+def r_rewrite_disagree(p):
+    """C18: the option-rewritten check and the hand-rewritten hint disagree on an object/draw."""
+    from . import universe, c18
+    from .grammar import make_conf
+    src = p['hint']
+    hint = c18.hint_by_name(src)
+    h2 = c18.rewritten_hint(hint, src)
+    factory = lambda: universe.build(p['obj'])
+    a = run_program(p['program'], factory, hint, make_conf(p['confkw']), p['draw'])
+    b = run_program(p['program'], factory, h2, make_conf(p.get('base_confkw', {})), p['draw'])
+    if a[0] != b[0]:
+        return True, (f'{p["program"]}: {a[0]} under {p["confkw"]} but {b[0]} for the hand-rewritten hint {h2!r} '
+                      f'on {factory()!r}, draw {p["draw"]}')
+    return False, f'both {a[0]}'
+
+
+def r_vale_disagree(p):
+    """C12: the generated code and the boolean meaning of the validator expression disagree."""
+    from . import refsem
+    hint, conf, node, factory = _setup(p)
+    obj = factory()
+    want = refsem.conforms(obj, node)
+    verdict, detail = run_program(p['program'], lambda: obj, hint, conf, p['draw'])
+    got = {'accept': True, 'reject': False}.get(verdict)
+    if got is None or got != want:
+        return True, f'{p["program"]} -> {verdict} {detail or ""} but the boolean meaning is {want} on {obj!r}'
+    return False, f'agree ({want})'
+
+
 REPLAYERS = {
+    'vale_disagree': r_vale_disagree,
+    'rewrite_disagree': r_rewrite_disagree,
     'false_alarm': r_false_alarm,
     'missed': r_missed,
     'unsampled': r_unsampled,
